@@ -33,12 +33,13 @@ HARNESSES = [
 ] + [
     Harness('poolm', 'h_poolm_' + nm, unwind=5, unwindset=MLONG + ''.join(',h_poolm_%s.%d:9' % (nm, i) for i in range(12)), mem_gb=mem, timeout=1800, flags=FS, tiers=tiers, bounds=BM % (nm.replace('_', ','), fill))
     for nm, fill, mem, tiers in (('8_8_4', 'no fill()', 2, Q), ('1_4_1_1_1', 'then fill()', 8, Q), ('4_4_4_4', 'then fill()', 8, Q), ('4_8_4', 'then fill()', 6, T), ('1_8_1', 'then fill()', 6, Q))
-] + [
-    # tree of 4-byte constants receives up to 7 nodes (4 quarters, 2 halves of the 8-byte one, the last add): deeper walk bounds
-    Harness('poolm', 'h_poolm_16_8_4', unwind=9, unwindset=MLONG.replace('EPh.', 'EPh.').replace(':8', ':10') + ''.join(',h_poolm_16_8_4.%d:9' % i for i in range(12)), mem_gb=8, timeout=2400, flags=FS, tiers=T,
-            bounds=BM % ('16,8,4', 'then fill()')),
 ]
 EXPLANATION = 'bounded symbolic execution (CBMC) of the real ConstPool::add / fill compiled from /repo; offsets and the written image are compared with a list of the constants kept by the harness'
-OUTSIDE = ['measured and dropped (out of memory at the 8 GB cap of one query after 30..280 s): size sequences 8,4 / 4,8 / 8,8 / 1,8,1 / 4,4,4 / 4,8,4 / 16,8,4, i.e. every scenario in which a tree of the pool receives a third node or a node is added next to two shared ones; sharing is therefore checked by lookup after one 8-byte add (h_pool_8_lookup), not through a second add', 'fill() of pools whose trees hold more than one node of a size class (tree walks through the tagged links exhaust the memory cap)', 'size sequences other than the ones listed per harness (sizes are constants per harness: with symbolic sizes the solver reaches no verdict)', 'constants of 32 and 64 bytes (a 64-byte constant registers 30 shared sub-constants: beyond the memory cap of one query)', 'more than 3 adds', 'pools that are not empty at the start']
-ASSUMPTIONS = ['Arena::_alloc_oneshot is a harness stub handing out one 56-byte object per request (the arena is checked by C18); allocation never fails (D3 / C15)',
-               'memset is a byte loop for the solver']
+OUTSIDE = ['with the REAL red-black tree (unit pool): scenarios in which a tree of the pool receives a third node (out of memory at the 8 GB cap of one query: 8,4 / 4,8 / 8,8 / 1,8,1 / 4,4,4 / 4,8,4 / 16,8,4); those are decided in unit poolm on the typed-link tree model instead',
+           'size sequences other than the ones listed per harness (sizes are constants per harness: with symbolic sizes the solver reaches no verdict); more than 5 adds',
+           'constants of 32 and 64 bytes, and the sequence 16,8,4 (7 nodes in the tree of 4-byte constants: out of memory at 8 GB even on the model tree)',
+           'pools that are not empty at the start']
+ASSUMPTIONS = ['Arena::_alloc_oneshot is a harness stub handing out one small typed object per request (unit poolm: laid out like ConstPool::Node + data / ConstPool::Gap, from a table that belongs to the current add call); the arena is checked by C18; allocation never fails (D3 / C15)',
+               'unit poolm: asmjit/support/arenatree.h is replaced by checks/C19/tree_model.h - typed child pointers, no balancing, the same insert/get descent rule and interface; ConstPool::add, ConstPool_addGap, ConstPool::Compare, Tree::for_each and ConstPool::fill are the real code. The real tree is exercised by C18 (h_tree_*) and, under the pool, by unit pool with up to two nodes per tree',
+               'unit pool: memset is a byte loop for the solver; unit poolm: memcpy/memset with a non-constant length are byte loops (VERIF_MEM_LOOPS)',
+               'unit poolm runs CBMC with --max-field-sensitivity-array-size 16 (for_each keeps a 62-entry stack indexed by a symbolic depth)']
